@@ -274,19 +274,25 @@ func C07(p *an.Prog, r *an.Report) {
 	// H4: KeysAndCert.Bytes covers every field
 	if fn := need("keys_and_cert.(*KeysAndCert).Bytes"); fn != nil {
 		covered := map[string]bool{}
+		whole := map[string]bool{}
 		for _, ret := range flow.OkReturns(fn) {
 			sl := &an.Slicer{P: p, Root: fn, Through: an.AllArgs, MaxDepth: 8}
 			for _, l := range sl.Leaves(ret.Results[0]) {
 				if l.Kind == an.LParam && l.Param == 0 {
 					parts := strings.Split(strings.TrimPrefix(l.Path, "."), ".")
 					covered[parts[0]] = true
+					if !l.Sliced {
+						whole[parts[0]] = true
+					}
 				}
 			}
 		}
 		st := an.Deref(fn.Signature.Recv().Type()).Underlying().(*types.Struct)
 		for i := 0; i < st.NumFields(); i++ {
 			name := st.Field(i).Name()
-			r.Check(covered[name], "C07.H4", "KeysAndCert.Bytes/covers-"+name, p.FnPos(fn), "the identity serialisation draws on field "+name)
+			// keys and certificate enter whole; only the padding is legitimately cut in two
+			ok := covered[name] && (whole[name] || name == "Padding")
+			r.Check(ok, "C07.H4", "KeysAndCert.Bytes/covers-"+name, p.FnPos(fn), "the identity serialisation draws on the whole of field "+name, fmt.Sprintf("covered=%v unsliced=%v", covered[name], whole[name]))
 		}
 	}
 }
